@@ -155,6 +155,24 @@ def random_history(r, reuse=False, faults=False, maxsess=6):
     return {"fail": fail, "ops": ops}
 
 
+def long_hold(r, n):
+    """a session that holds n events before its login arrives (bounded buffers, quadratic flushes
+    and the like only show with a long hold queue), ends before the login, and whose PID is then reused"""
+    pid, other = 300 + r.below(50), 4300
+    ops = [A(0, "1", "l", str(pid))]
+    for i in range(n):
+        ops.append(A(0, "1", "o", r.choice([str(pid), str(other)]), r.choice(RESULTS), r.below(3)))
+    ended = r.below(3) > 0
+    if ended:
+        ops.append(A(0, "1", "d", str(pid)))
+    ops.append(L(pid, "alice", tag="7"))
+    if ended:
+        ops += [L(pid, "bob", tag="8"), A(0, "2", "l", str(pid)), A(0, "1", "o", str(pid)), A(0, "2", "o", str(pid))]
+    else:
+        ops += [A(0, "1", "o", str(pid)), A(0, "1", "d", str(pid))]
+    return {"fail": "-", "ops": retime(ops)}
+
+
 class TrackerFamily(Family):
     harness_mode = ["tracker"]
     uses_gen = ("NONE",)
@@ -217,6 +235,8 @@ class TrackerFamily(Family):
         for _ in range(n):
             cs.append(random_history(rng, reuse=(p in ("C09", "C04") and rng.below(2) == 0) or p == "C09",
                                      faults=p in ("C01", "C04", "C14", "C09")))
+        for n in ([50, 1100, 2300] if quick else [50, 300, 1100, 2300, 4200, 9000]):
+            cs.append(long_hold(rng, n))
         return cs
 
     def extra_cases(self, rng, n):
